@@ -571,7 +571,9 @@ def c03(ck):
     by_id = {e["id"]: e for e in events}
     nid = max(by_id) + 1
     canaries = []
-    for pred, mut in ((lambda e: e["event"] == "Digest" and e["outcome"] == "DigestMismatchError", to_ok),
+    # (the copies are made of events whose recorded state really contains / really lacks a wrong digest, so that the
+    # corrupted outcome is wrong whatever the library under test did)
+    for pred, mut in ((lambda e: e["event"] == "Digest" and e["outcome"] == "DigestMismatchError" and "mismatch" in e["d"].values(), to_ok),
                       (lambda e: e["event"] == "Digest" and e["outcome"] == "ok" and e["d"]["sha256"] == "match" and e["d"]["payload"] in ("match", "absent"), to_err)):
         c = _first(events, pred, "C03")
         mut(c)
